@@ -480,6 +480,37 @@ def r_underflow_guard(cx):
                    if not okg else
                    "the failing side of the depth test in %s does not (stomp the operands with NaN and return 0)" % fn),
                   cx.where(f.term(bb)["span"]))
+    # depth - X with a loop-invariant X: the subtraction itself must be protected by a test of that very X
+    nsub = 0
+    for fn in PRIMS:
+        if not cx.f.has_fn(fn):
+            continue
+        f = cx.f.fn(fn)
+        guards = _length_guards(f)
+        k = 0
+        for bb in sorted(f.reachable()):
+            t = f.term(bb)
+            if t["k"] != "assert" or "Sub" not in str(t.get("msg")):
+                continue
+            c = f.operand(t["cond"], f.end_point(bb))
+            if not (c[0] == "proj" and c[1][0] == "bin" and c[1][1] == "SubWithOverflow"):
+                continue
+            a, x = c[1][2], c[1][3]
+            if not _is_stack_len(a):
+                continue
+            import pertuple
+            if any(pertuple.mentions_loopphi(x, lp.header) for lp in f.loops()) or x[0] == "const":
+                continue
+            nsub += 1
+            g = [y for y in guards if y.get("demand") is not None and mir.strip_refs(y["demand"]) == mir.strip_refs(x)
+                 and f.dominates(y["ok"], bb)]
+            cx.ob("R-UNDERFLOW-GUARD", "%s/sub%d" % (fn, k), bool(g),
+                  "`depth - x` in %s is computed only after `x` has been tested against the stack depth" % fn if g else
+                  "%s computes `depth - x` (%s) without a dominating test of this x against the stack depth (the depth "
+                  "test there is on another quantity): a demand exceeding the depth panics with a subtraction overflow "
+                  "instead of marking the operands NaN" % (fn, mir.show(x)[:50]), cx.where(t["span"]))
+            k += 1
+    cx.count("R-UNDERFLOW-GUARD", "depth_subtractions", nsub)
     cx.count("R-UNDERFLOW-GUARD", "sites", n)
 
 
@@ -511,10 +542,11 @@ def _length_guards(f):
             if r_is_len:
                 op = {"Lt": "Gt", "Gt": "Lt", "Le": "Ge", "Ge": "Le"}[op]
             # now: len op demand
+            demand = c[2] if r_is_len else c[3]
             if op in ("Lt", "Le"):
-                out.append({"fail": true_succ, "ok": false_succ, "op": op, "bb": bb})
+                out.append({"fail": true_succ, "ok": false_succ, "op": op, "bb": bb, "demand": demand})
             else:
-                out.append({"fail": false_succ, "ok": true_succ, "op": op, "bb": bb})
+                out.append({"fail": false_succ, "ok": true_succ, "op": op, "bb": bb, "demand": demand})
         elif c[0] == "call" and isinstance(c[1], str) and c[1].endswith("::is_empty"):
             out.append({"fail": true_succ, "ok": false_succ, "single": bb})
     return [g for g in out if g["ok"] is not None and g["fail"] is not None]
